@@ -117,9 +117,15 @@ def generate(rng, tier):
             ops.append({"op": "trunc_pyc", "n": rng.choice([0, 3, 8, 15])})
         elif r < 0.92:
             ops.append({"op": "arm", "fault": rng.choice(["enospc", "eacces", "crash_before_rename"])})
-        elif r < 0.96:
+        elif r < 0.94:
             # the module shipped in a zip archive: source and bytecode together, bytecode only, source only
             ops.append({"op": "zip_import", "what": rng.choice(["both", "both", "pyc", "src"])})
+        elif r < 0.99:
+            # the same text run as a script (what `hy FILE` does), with and without a suffix: the first run compiles
+            # and caches, the next one runs the cached bytecode
+            ops.append({"op": "run_path", "suffix": rng.choice(["", "", ".hy", ".txt"])})
+            if rng.random() < 0.7:
+                ops.append(dict(ops[-1]))
         else:
             ops.append({"op": "dwb", "on": rng.random() < 0.6})
     ops += [{"op": "import"}, {"op": "import"}]
@@ -297,6 +303,7 @@ def execute(desc):
         model = Model(desc, ver)
         W.write(name, model.text())
         mod = None
+        scripts = {}
         pyc_valid = False
         fault_pending = False
         paths = set()
@@ -344,6 +351,57 @@ def execute(desc):
                 events.append([oi, "import", path, len(got_c), len(got_r)])
                 seq.append(("import", path))
                 fault_pending = False
+            elif kind == "run_path":
+                import contextlib
+                import io
+                from hy.importer import runhy
+                sfx = op["suffix"]
+                sname = tag + "scr" + {"": "0", ".hy": "1", ".txt": "2"}[sfx]
+                st = scripts.get(sfx)
+                if st is None or st["ver"] != ver:
+                    W.write(sname, model.text(), ext=sfx)
+                    st = scripts[sfx] = {"ver": ver, "pyc_valid": False}
+                del log.events[:]
+                err = io.StringIO()
+                saved_argv = list(sys.argv)
+                try:
+                    with contextlib.redirect_stderr(err), contextlib.redirect_stdout(io.StringIO()):
+                        ns = runhy.run_path(W.files[sname], run_name="__main__")
+                    rerr = None
+                except BaseException as e:
+                    ns, rerr = {}, e
+                finally:
+                    sys.argv[:] = saved_argv
+                armed = W.armed
+                W.armed = None
+                probes["script_runs"] = probes.get("script_runs", 0) + 1
+                if rerr is not None:
+                    viols.append({"clause": "import_failed", "sig": "run_path:" + type(rerr).__name__,
+                                  "detail": {"op": oi, "suffix": sfx, "error": repr(rerr)[:300], "stderr": err.getvalue()[-400:]}})
+                    break
+                from_src = ("Compiling " + W.files[sname]) in err.getvalue()
+                if st["pyc_valid"] and from_src:
+                    viols.append({"clause": "load_path", "sig": "script:valid_pyc_not_used", "detail": {"op": oi, "suffix": sfx}})
+                if not st["pyc_valid"] and not from_src:
+                    viols.append({"clause": "load_path", "sig": "script:stale_pyc_used", "detail": {"op": oi, "suffix": sfx}})
+                if from_src:
+                    st["pyc_valid"] = armed is None and not sys.dont_write_bytecode
+                else:
+                    probes["script_runs_from_cache"] = probes.get("script_runs_from_cache", 0) + 1
+                got_c = [t for ph, t in log.events if ph == "compile"]
+                got_r = [t for ph, t in log.events if ph == "run"]
+                want_c = model.compile_log if from_src else []
+                if got_c != want_c:
+                    viols.append({"clause": "compile_time_effects", "sig": "script:" + ("source" if from_src else "cache"),
+                                  "detail": {"op": oi, "suffix": sfx, "got": got_c, "expected": want_c, "text": model.text()[:1200]}})
+                if got_r != model.run_log:
+                    viols.append({"clause": "run_time_effects", "sig": "script:" + ("source" if from_src else "cache"),
+                                  "detail": {"op": oi, "suffix": sfx, "got": got_r, "expected": model.run_log, "text": model.text()[:1200]}})
+                gotv = {k: ns.get(k, "<missing>") for k in model.values}
+                if {k: repr(v) for k, v in gotv.items()} != {k: repr(v) for k, v in model.values.items()}:
+                    viols.append({"clause": "values", "sig": "script", "detail": {"op": oi, "got": repr(gotv)[:300], "expected": repr(model.values)[:300]}})
+                events.append([oi, "run_path", sfx, "source" if from_src else "cache", len(got_c), len(got_r)])
+                seq.append(("run_path", sfx, from_src))
             elif kind == "zip_import":
                 import importlib
                 import zipfile
